@@ -301,6 +301,15 @@ def _svd_generic(M, k_keep, full_matrices, routine_name, exact=True):
                 for j in range(p):
                     tot = tot + Ro[i, j] * Vo[l, j].conjugate()
                 c.assume("eq", tot.p, f"{tag}: R V_k = 0")
+    if c.options.get("hermitian_psd_inputs") and n == p and k == r:
+        Mi = obj(M_in)
+        herm = all(isinstance(Mi[i, j], Sym) and isinstance(Mi[j, i], Sym) and Mi[i, j].p == Mi[j, i].p.conj() for i in range(n) for j in range(i, n))
+        if herm:
+            Uo_, Vo_ = obj(U), obj(VT)
+            for i in range(n):
+                for l in range(k):
+                    c.assume("eq", (Uo_[i, l] - Vo_[l, i].conjugate()).p, f"{tag}: Hermitian PSD input, U = V [configuration assumption]")
+            c.notes.append("Hermitian (Gram) SVD input assumed positive semi-definite: left and right singular vectors coincide")
     c.stub_log.append({"stub": routine_name, "shape": [n, p], "k": k_keep, "full_matrices": bool(full_matrices), "U": U, "s": s, "VT": VT, "M": M, "tag": tag})
     cache[key] = (U.copy(), s.copy(), VT.copy())
     c.caches.setdefault("svd_inputs", {})[key] = obj(M_in).copy()
